@@ -29,6 +29,7 @@ def run_one(prop, tier, repo, seed, out_dir=None):
         except (AnalysisError, AnchorError) as e:
             # violations already decided stay valid; without any, the run is analysis-broken
             ctx.broken = str(e)
+        ctx.functions |= set(model.touched)  # every function a rule resolved counts as analysed
         names.check_exits(ctx)              # rule X: no exit of an analysed function that the rules have never read
         names.check_new_methods(ctx)        # rule M: no new override of an operation in a class of the anchor files
         try:
